@@ -139,6 +139,11 @@ type Runner struct {
 
 	lastExpandExit exitStatus // used to surface exit statuses while expanding fields
 
+	// expandFailed records that an expansion failed with a non-fatal error,
+	// such as a division by zero in $((1/0)); the current command fails
+	// with exit status 1 without being run, like in Bash.
+	expandFailed bool
+
 	// bgProcs holds all background shells spawned by this runner.
 	// Their PIDs are 1-indexed, from 1 to len(bgProcs), with a "g" prefix
 	// to distinguish them from real PIDs on the host operating system.
